@@ -28,15 +28,29 @@ use crate::errors::*;
 use super::{normalize_key, PreprocessorCacheModeConfig};
 
 enum LazyDiskCache {
-    Uninit { root: OsString, max_size: u64 },
+    Uninit {
+        root: OsString,
+        max_size: u64,
+        read_only: bool,
+    },
     Init(LruDiskCache),
 }
 
 impl LazyDiskCache {
     fn get_or_init(&mut self) -> Result<&mut LruDiskCache> {
         match self {
-            LazyDiskCache::Uninit { root, max_size } => {
-                *self = LazyDiskCache::Init(LruDiskCache::new(&root, *max_size)?);
+            LazyDiskCache::Uninit {
+                root,
+                max_size,
+                read_only,
+            } => {
+                // Opening a read-only cache must not evict or clean up anything.
+                let lru = if *read_only {
+                    LruDiskCache::new_read_only(&root, *max_size)?
+                } else {
+                    LruDiskCache::new(&root, *max_size)?
+                };
+                *self = LazyDiskCache::Init(lru);
                 self.get_or_init()
             }
             LazyDiskCache::Init(d) => Ok(d),
@@ -89,6 +103,7 @@ impl DiskCache {
             lru: Arc::new(Mutex::new(LazyDiskCache::Uninit {
                 root: root.as_ref().to_os_string(),
                 max_size,
+                read_only: rw_mode == CacheMode::ReadOnly,
             })),
             pool: pool.clone(),
             preprocessor_cache_mode_config,
@@ -97,6 +112,7 @@ impl DiskCache {
                     .join("preprocessor")
                     .into_os_string(),
                 max_size,
+                read_only: rw_mode == CacheMode::ReadOnly,
             })),
             rw_mode,
         }
